@@ -262,6 +262,12 @@ impl Ctx {
 		S::Value: Serialize + std::fmt::Debug + Clone,
 		F: Fn(&S::Value, &Path) -> CaseResult,
 	{
+		// debugging aid: PDBV_ONLY_SUB=<name> runs only that sub-run
+		if let Ok(only) = std::env::var("PDBV_ONLY_SUB") {
+			if only != sub {
+				return true
+			}
+		}
 		let seed = self.shard_seed(fingerprint(&sub.to_string()) & 0xffff);
 		let mut seed_bytes = [0u8; 32];
 		crate::spec::fill_random(&mut seed_bytes, seed);
